@@ -60,6 +60,7 @@ SIMPLE_ARGS = {
     "shared_dir": False,
     "log_debug": False,
     "arg_style": "plain",
+    "strict": None,
     "r": 3.0,
     "origin": [0.0, 0.0, 0.0],
     "bounds": [[-1, -1, -1], [1, 1, 1]],
